@@ -3,6 +3,7 @@ import Uom.Props.C15
 import Uom.Proofs.BodyEq.Temp
 import Uom.Proofs.BodyEq.Mixed
 import Uom.Gen.Sigs
+import Uom.Gen.Features
 /-!
 # C17 — feature flags change what compiles, never what a compiled program computes
 
@@ -159,5 +160,34 @@ theorem src_noauto_twins_share_units :
   decide
 
 end SourceTie
+
+/-! ### tie to the source: the feature gates regenerated from /repo/src/features.rs on this run
+
+The twin theorems above presuppose that in every configuration exactly one body of each
+`autoconvert! { … }` / `not_autoconvert! { … }` pair is compiled, and that `std! { … }` code is compiled
+exactly with `std`.  `Gen.Features.gates` is the list of gate-macro definitions (cfg predicate, passes its body
+or drops it) the translator read just now; for **every** feature assignment `σ` and both values of `test`: -/
+section Gates
+open Uom.Features Uom.Gen.Features
+
+theorem src_gates (σ : Nat → Bool) (t : Bool) :
+    active gates σ t gate_autoconvert = some (σ feat_autoconvert) ∧
+    active gates σ t gate_not_autoconvert = some (!σ feat_autoconvert) ∧
+    active gates σ t gate_std = some (σ feat_std) ∧
+    active gates σ t gate_serde = some (σ feat_serde) ∧
+    active gates σ t gate_si = some (σ feat_si) ∧
+    active gates σ t gate_test = some t ∧
+    active gates σ t gate_autoconvert_test = some (σ feat_autoconvert || t) := by
+  cases h0 : σ 0 <;> cases h1 : σ 1 <;> cases h2 : σ 2 <;> cases h3 : σ 3 <;> cases t <;>
+    simp [active, defsOf, gates, Cfg.eval, Cfg.evalAny, Cfg.evalAll, h0, h1, h2, h3, gate_autoconvert,
+      gate_autoconvert_test, gate_not_autoconvert, gate_serde, gate_si, gate_std, gate_test, feat_autoconvert,
+      feat_serde, feat_si, feat_std]
+
+/-- exactly one twin of every `autoconvert!` / `not_autoconvert!` pair is compiled, in every configuration -/
+theorem src_twins_complementary (σ : Nat → Bool) (t : Bool) :
+    ∃ b, active gates σ t gate_autoconvert = some b ∧ active gates σ t gate_not_autoconvert = some (!b) :=
+  ⟨σ feat_autoconvert, (src_gates σ t).1, (src_gates σ t).2.1⟩
+
+end Gates
 
 end Uom.C17
